@@ -11,6 +11,7 @@ import Resvg.Lemmas.Transform
 import Resvg.Render.Layer
 import Resvg.Render.Compose
 import Resvg.Props.C02
+import Resvg.Generated.FiniteGuards
 
 namespace Resvg.Props.C14
 open Resvg Resvg.Render Resvg.Render.IntRect Resvg.Geom Resvg.Lemmas
@@ -247,5 +248,38 @@ example : layerRect (21/2) (-3) 100 (7/2) true ⟨-40, -40, 100, 100⟩ = .ok (s
   decide +kernel
 example : drawIsolated ⟨1/2, 0, 0, 1/2⟩ 1 [⟨0, 1/4, 0, 1/4⟩, ⟨0, 0, 1/2, 1/2⟩]
     = drawAll ⟨1/2, 0, 0, 1/2⟩ [⟨0, 1/4, 0, 1/4⟩, ⟨0, 0, 1/2, 1/2⟩] := by decide +kernel
+
+/-! ### an SVG image whose content reaches beyond its own size
+
+The layer of an isolated ancestor is sized by the image's box, so through a layer only the part of the
+nested rendering inside the image rectangle survives.  Drawn directly, `image::render_vector` composites
+the nested rendering itself: it has to cut it to the rectangle (fix c1a7a73), or isolation becomes visible.
+Pixels are modelled as predicates (`content p`: the nested document paints `p`; `rect p`: `p` lies in the
+image rectangle). -/
+
+/-- what reaches the canvas when the image is drawn directly; `clip` = the nested rendering is cut to the rectangle -/
+def imagePaintDirect (clip : Bool) (content rect : Int × Int → Prop) (p : Int × Int) : Prop :=
+  content p ∧ (clip = true → rect p)
+
+/-- … and through a layer sized by the image's box -/
+def imagePaintViaLayer (content rect : Int × Int → Prop) (p : Int × Int) : Prop := content p ∧ rect p
+
+/-- **with the cut in place, isolating an ancestor of an SVG image changes nothing**, whatever the nested
+    document paints outside of its own size (the translator checks that the source performs the cut) -/
+theorem C14_svg_image_overflow_invisible (content rect : Int × Int → Prop) (p : Int × Int) :
+    (imagePaintDirect true content rect p ↔ imagePaintViaLayer content rect p) ∧
+    Generated.svgImageOverflowClipped = true := by
+  refine ⟨?_, by decide⟩
+  unfold imagePaintDirect imagePaintViaLayer
+  constructor
+  · rintro ⟨h1, h2⟩; exact ⟨h1, h2 rfl⟩
+  · rintro ⟨h1, h2⟩; exact ⟨h1, fun _ => h2⟩
+
+/-- without it, any content outside of the rectangle is painted directly and lost through a layer -/
+theorem C14_old_svg_image_overflow_visible (content rect : Int × Int → Prop) (p : Int × Int)
+    (hc : content p) (hr : ¬ rect p) :
+    imagePaintDirect false content rect p ∧ ¬ imagePaintViaLayer content rect p := by
+  unfold imagePaintDirect imagePaintViaLayer
+  exact ⟨⟨hc, fun h => by cases h⟩, fun h => hr h.2⟩
 
 end Resvg.Props.C14
